@@ -242,6 +242,10 @@ func genTravOpts(r *RNG, api uint64) travOpts {
 			o.dpad = pick(r, []uint64{^uint64(0), ^uint64(0) - 49, ^uint64(0) - 50}) // DataOffset wraps around
 		}
 	}
+	if api == 3 {
+		o.ncbW = uint64(r.Intn(4))
+		o.ncbD = uint64(r.Intn(4))
+	}
 	if api == 4 {
 		o.nilRoots = r.Bool()
 		o.plain = r.Bool()
@@ -272,7 +276,8 @@ func traceStats(traces Val) (distinct int, repeats bool, ok bool) {
 }
 
 // fixedCases: small hand-made DAGs that run first on every seed.
-//   diamond: root{l0->a, l1->b}, a{l0->leaf}, b{l0->leaf}; twice: root{l0->leaf, l1->leaf}
+//
+//	diamond: root{l0->a, l1->b}, a{l0->leaf}, b{l0->leaf}; twice: root{l0->leaf, l1->leaf}
 func fixedCases(c *Ctx) {
 	r := NewRNG(15)
 	cborNode := func(kids ...*dnode) *dnode {
@@ -304,9 +309,15 @@ func fixedCases(c *Ctx) {
 		}
 		for api := uint64(0); api <= 4; api++ {
 			for _, dups := range []bool{true, false} {
-				tc := &travCase{api: api, roots: []cid.Cid{g.top.c}, sel: selSpec{kind: 0}, opts: travOpts{dups: dups, plain: dups}, store: store}
-				emitTrav(c, tc, func(Val) bool { return true })
-				c.Count("fixed:" + g.name)
+				ncbs := [][2]uint64{{1, 1}}
+				if api == 3 { // 0..3 registered callbacks for Write and for Prepare/Dump
+					ncbs = [][2]uint64{{0, 0}, {1, 1}, {2, 2}, {3, 3}, {2, 3}, {3, 1}}
+				}
+				for _, nc := range ncbs {
+					tc := &travCase{api: api, roots: []cid.Cid{g.top.c}, sel: selSpec{kind: 0}, opts: travOpts{dups: dups, plain: dups, ncbW: nc[0], ncbD: nc[1]}, store: store}
+					emitTrav(c, tc, func(Val) bool { return true })
+					c.Count("fixed:" + g.name)
+				}
 			}
 		}
 	}
@@ -353,7 +364,7 @@ func smallScope(c *Ctx) {
 		}
 		for api := uint64(0); api <= 4; api++ {
 			for _, dups := range []bool{true, false} {
-				tc := &travCase{api: api, roots: []cid.Cid{nodes[0].c}, sel: selSpec{kind: 0}, opts: travOpts{dups: dups, plain: dups}, store: store}
+				tc := &travCase{api: api, roots: []cid.Cid{nodes[0].c}, sel: selSpec{kind: 0}, opts: travOpts{dups: dups, plain: dups, ncbW: uint64(code % 4), ncbD: uint64((code / 4) % 4)}, store: store}
 				emitTrav(c, tc, func(traces Val) bool { d, _, ok := traceStats(traces); return ok && d >= 3 })
 				c.Count("small-scope:4-node-dag")
 			}
@@ -459,6 +470,10 @@ func init() {
 						}
 						if tc.opts.budget != 0 {
 							c.Count("opt:link-budget")
+						}
+						if api == 3 {
+							c.Count("callbacks:write=" + string(rune('0'+tc.opts.ncbW)))
+							c.Count("callbacks:dump=" + string(rune('0'+tc.opts.ncbD)))
 						}
 						return ok && d >= 3
 					})
